@@ -1124,6 +1124,7 @@ var c09JsSeeds = []string{
 	"throw /re/; ", "throw a", "x = a ? /re/ : /re2/g; y = [/re/, /re/]; z = {a: /re/}; w = (/re/); v = !/re/; u = a || /re/; t = a, /re/",
 	"x = a.b /c/g; y = a[0] /c/g; z = a() /c/g; w = a`b` /c/g; v = \"s\" /c/g; u = 1 /c/g; t = this /c/g; s = a++ /c/g",
 	"x = a ? b : c; y = a ?. b; z = a ?.5 : c; w = a ?.[5]; v = a?.b?.c?.(d)?.[e]",
+	"x = new (a?.b)[c](); y = new ((a?.b)).c; z = (a?.b)[c]; w = (a?.b)(); v = (a?.b)`t`; (a?.b).c = 1; (a?.b.c).d++; ++(a?.b)[c]",
 	"x = 5..toString(); y = 5 .toString(); z = 5.5.toString(); w = (5).toString(); v = 5[\"toString\"](); u = 5e0.toString(); t = 0x5.toString()",
 }
 
@@ -1140,7 +1141,7 @@ func c09JsSyntaxSignature(out []byte, v8err, seconderr string) string {
 		return "comment-body"
 	case strings.Contains(v8err, "Invalid left-hand side in assignment") && bytes.Contains(out, []byte("!class")):
 		return "bang-class"
-	case bytes.Contains(out, []byte("?.")) && (strings.Contains(v8err, "Invalid left-hand side") || strings.Contains(v8err, "Invalid tagged template on optional chain")):
+	case bytes.Contains(out, []byte("?.")) && (strings.Contains(v8err, "Invalid left-hand side") || strings.Contains(v8err, "Invalid tagged template on optional chain") || strings.Contains(v8err, "Invalid optional chain from new expression")):
 		return "opt-chain"
 	}
 	return ""
